@@ -442,7 +442,75 @@ fn corrupt_files(run: &Run, pool: &Pool) {
     for (i, f) in ["", "[]", "{}", "null", "{\"peers\":[]}", "{\"nodes\":[],\"save_path\":\"x\"}", "\u{feff}{}"].iter().enumerate() {
         cases.push((format!("foreign shape {i}"), f.as_bytes().to_vec()));
     }
+    // well-formed files of the right shape whose numbers are not what this code would have written: every number token
+    // of the seed file replaced in turn by boundary values (counters, seconds and nanoseconds of a timestamp)
+    {
+        let b = seed.as_bytes();
+        let mut i = 0;
+        let mut tokens: Vec<(usize, usize)> = vec![];
+        while i < b.len() {
+            if b[i].is_ascii_digit() && (i == 0 || matches!(b[i - 1], b':' | b',' | b'[' | b' ')) {
+                let st = i;
+                while i < b.len() && b[i].is_ascii_digit() {
+                    i += 1;
+                }
+                if i < b.len() && matches!(b[i], b',' | b'}' | b']' | b' ' | b'\n') {
+                    tokens.push((st, i));
+                }
+            } else {
+                i += 1;
+            }
+        }
+        let day = 86_400u64;
+        let values: Vec<String> = vec![
+            "0".into(),
+            "4294967295".into(),
+            "4294967296".into(),
+            (i64::MAX as u64 - day - 1).to_string(),
+            (i64::MAX as u64 - day + 1).to_string(),
+            (i64::MAX as u64 - 1).to_string(),
+            (i64::MAX as u64).to_string(),
+            (i64::MAX as u64 + 1).to_string(),
+            u64::MAX.to_string(),
+            "18446744073709551616".into(),
+            "-1".into(),
+            "1e30".into(),
+            "999999999".into(),
+            "1000000000".into(),
+        ];
+        for (n, (st, en)) in tokens.iter().enumerate() {
+            for v in &values {
+                let mut f = seed[..*st].to_string();
+                f.push_str(v);
+                f.push_str(&seed[*en..]);
+                cases.push((format!("number token {n} := {v}"), f.into_bytes()));
+            }
+        }
+        run.extra("corrupt_files_number_tokens", json!(tokens.len()));
+    }
     let mut loaded = 0u64;
+    // the same files under every expiry setting a configuration can carry (the clean-up compares each entry's age with it)
+    let expiry_cfgs: Vec<(&str, BootstrapCacheConfig)> = vec![
+        ("expiry 24 h", cfg.clone()),
+        ("expiry 0", cfg.clone().with_addr_expiry_duration(Duration::ZERO)),
+        ("expiry Duration::MAX", cfg.clone().with_addr_expiry_duration(Duration::MAX)),
+    ];
+    for (ename, ecfg) in expiry_cfgs.iter().skip(1) {
+        for (name, content) in cases.iter().filter(|(n, _)| n.starts_with("number token") || n.starts_with("foreign shape") || n == "truncated at 0") {
+            std::fs::write(&path, content).unwrap();
+            run.case(format!("corrupt:{ename}:{name}").as_bytes(), true);
+            let r = catch(|| {
+                let _ = BootstrapCacheStore::load_cache_data(ecfg);
+                let mut st = BootstrapCacheStore::new(ecfg.clone()).expect("store");
+                st.add_addr(pool.addrs[0].clone());
+                let _ = st.sync_and_flush_to_disk(true);
+                let _ = BootstrapCacheStore::load_cache_data(ecfg);
+            });
+            if let Err(p) = r {
+                run.violation("corrupt-file-ignored", "load-panics", format!("{ename}: loading / adding / flushing over a cache file {name} panicked: {p}"), json!({"engine":"corrupt-files","file": name, "config": ename}));
+            }
+        }
+    }
     for (name, content) in &cases {
         std::fs::write(&path, content).unwrap();
         run.case(format!("corrupt:{name}").as_bytes(), true);
